@@ -830,6 +830,11 @@ func toBinary(val interface{}) (string, error) {
 		r := b64.StdEncoding.EncodeToString(x)
 		return r, nil
 	case string:
+		// the text of a binary is the base64 of its bytes (RFC7950 Sec 9.8.2): what does not
+		// decode would read back as other bytes, or none
+		if _, err := b64.StdEncoding.DecodeString(x); err != nil {
+			return "", fmt.Errorf("'%s' is not a binary value. %w", x, err)
+		}
 		return x, nil
 	}
 	return "", fmt.Errorf("cannot coerse '%T' to binary value", val)
